@@ -110,6 +110,7 @@ def run(F, R, ctx):
     c08.bulk_discard_rule(F, R)
     if "jit2" in (F.meta.get("features") or []):
         jitmodel.helper_panic_rule(F, R, "C07.j")
+    slice_guard_rule(F, R)
     # ---- c
     nat = natives(F)
     R.floor("C07.c", "native primitives", len(nat), 400)
@@ -158,3 +159,157 @@ def run(F, R, ctx):
                        fn.loc(b["line"]))
     R.inst("C07.e", "native primitives without unfinished-code macros", True, sample={"natives": len(nat), "unfinished": n},
            nontrivial=True)
+
+
+IDX_RX = (r"\{impl Index(Mut)?<I> for (Vec<T,A>|\[T\]|str|String)\}::index(_mut)?$|\{impl \[T\]\}::(swap|split_at|split_at_mut)$|"
+          r"Vec<T,A>\}::(remove|insert|swap_remove|split_off)$|\{impl String\}::(insert|remove|split_off|replace_range|insert_str)$")
+
+
+SLICE_ALLOW = {
+    "steel_vm::vm::breakpoint": "debugging aid (#%breakpoint): prints the local slots named by the *instructions* of the "
+                                "running function (compiler-produced payloads), not by an argument value",
+}
+
+
+def _backward(fn):
+    mv, der = {}, {}
+    for b in fn.blocks:
+        for e in b["e"]:
+            if e[0] == "mv":
+                mv.setdefault(e[1], set()).update(lib.TOK.findall(lib._norm(e[2])))
+            elif e[0] == "der":
+                der.setdefault(e[1], set()).update(lib.TOK.findall(lib._norm(e[2])))
+    calls = {}
+    for i, b in fn.calls():
+        d = re.match(r"_\d+", b.get("dest") or "")
+        if d:
+            calls[d.group(0)] = b
+    return mv, der, calls
+
+
+def _origins(fn, tok, maps, depth=12):
+    """locals and call results a value is computed from (through moves, arithmetic, casts and *pure* conversions)"""
+    mv, der, calls = maps
+    seen, st = set(), [(tok, 0)]
+    while st:
+        x, d = st.pop()
+        if x in seen or d > depth:
+            continue
+        seen.add(x)
+        base = x.split(".")[0]
+        for m in (mv, der):
+            for k in (x, base):
+                for y in m.get(k, ()):
+                    st.append((y, d + 1))
+            if base == x:
+                for k, v in m.items():
+                    if k.startswith(x + "."):
+                        for y in v:
+                            st.append((y, d + 1))
+        if base in calls:
+            for a in calls[base]["args"]:
+                for y in lib.TOK.findall(lib._norm(a)):
+                    st.append((y, d + 1))
+    return seen
+
+
+def slice_guard_rule(F, R):
+    R.rule("C07.s", "a native primitive that indexes or slices a byte vector / vector / string payload with a position computed "
+                    "from its arguments first compares that position with the payload's length: each such index site (in the "
+                    "typed function a #[function] wrapper calls, one level) is dominated by a branch whose condition is computed "
+                    "from both the index (for a range: its end) and a len() of a collection — or the range comes from a "
+                    "validating helper that returns Result — so an out-of-range position is an error value, not a host panic")
+    inner = {}
+    for fn, arg in natives(F):
+        inner[fn.name] = fn
+        for c in F.callees(fn, expand_unresolved=False):
+            f2 = F.fns.get(c)
+            if f2 and re.match(r"steel::(primitives|steel_vm::primitives|values|rvals)::", c) and \
+                    not re.search(r"::err_thunk$|\{impl ", c):
+                inner[c] = f2
+    n = 0
+    for name, fn in sorted(inner.items()):
+        nparams = len(fn.d["in"])
+        seeds = ["_%d" % k for k in range(1, nparams + 1)]
+        ts = None
+        maps = None
+        for i, b in fn.calls():
+            if not re.search(IDX_RX, b["callee"]) or len(b["args"]) < 2:
+                continue
+            if ts is None:
+                ts = lib.tainted_locals(fn, seeds)
+                maps = _backward(fn)
+            idx_toks = [t for a in b["args"][1:] for t in lib.TOK.findall(a)]
+            if not any(t in ts for t in idx_toks):
+                continue
+            n += 1
+            if fn.short() in SLICE_ALLOW:
+                R.inst("C07.s", "%s / %s (allowlisted)" % (fn.short(), lib.split_path(b["callee"])[-1]), True,
+                       sample={"reason": SLICE_ALLOW[fn.short()]}, nontrivial=False)
+                continue
+            is_range = bool(b["targs"]) and any("Range" in t for t in b["targs"])
+            # the position to be guarded: for a range its end (field 1; RangeFrom/RangeTo: field 0), else the index
+            pos = set()
+            for t in idx_toks:
+                if is_range:
+                    pos |= {t + ".1"} if any(k.startswith(t + ".1") for k in maps[0]) else {t + ".0", t}
+                else:
+                    pos.add(t)
+            org = set()
+            for p_ in pos:
+                org |= _origins(fn, p_, maps)
+            # a range produced by a validating helper
+            helper = [maps[2][o.split(".")[0]] for o in org if o.split(".")[0] in maps[2]
+                      and maps[2][o.split(".")[0]]["callee"].startswith("steel::")
+                      and (F.fns.get(maps[2][o.split(".")[0]]["callee"]).d["out"].startswith("Result<")
+                           if maps[2][o.split(".")[0]]["callee"] in F.fns else False)
+                      and re.search(r"Range|\(usize,usize\)", F.fns[maps[2][o.split(".")[0]]["callee"]].d["out"])]
+            dom = fn.dominators()
+            lens = {d for d, c in maps[2].items() if re.search(r"::len$|::length$|::len_utf8$|chars_count|::count$", c["callee"])}
+            guarded = bool(helper)
+            len_org = set()
+            for l_ in lens:
+                len_org |= _origins(fn, l_, maps) | {l_}
+            distinguishing = org - len_org          # what the position depends on and no length does
+            if not guarded:
+                cmp_ops = {}
+                for blk2 in fn.blocks:
+                    for e in blk2["e"]:
+                        if e[0] == "der" and len(e) >= 5 and e[3] in ("Lt", "Le", "Gt", "Ge", "Eq", "Ne"):
+                            cmp_ops.setdefault(e[1], {}).setdefault(e[4], set()).update(lib.TOK.findall(lib._norm(e[2])))
+                for sb in dom[i]:
+                    blk = fn.blocks[sb]
+                    if blk["k"] != "switch" or blk["on"] != "bool":
+                        continue
+                    loc = re.match(r"_\d+", blk.get("place", "").strip("()*"))
+                    if not loc:
+                        continue
+                    conds = [loc.group(0)] + [x for x in _origins(fn, loc.group(0), maps) if x in cmp_ops]
+                    for c_ in conds:
+                        ops = cmp_ops.get(c_)
+                        if not ops or len(ops) < 1:
+                            continue
+                        sides = []
+                        for k_ in (0, 1):
+                            so = set()
+                            for t in ops.get(k_, ()):
+                                so |= _origins(fn, t, maps)
+                            sides.append(so)
+                        for a_, b_ in ((0, 1), (1, 0)):
+                            pure_len = bool(sides[a_] & lens) and not (sides[a_] & distinguishing)
+                            on_pos = bool(sides[b_] & distinguishing)
+                            if pure_len and on_pos:
+                                guarded = True
+                    if guarded:
+                        break
+                # checked access idioms: the index went through `get`/`checked_*`/`min`
+                if not guarded and any(re.search(r"::(min|clamp|get|checked_sub)$", maps[2][o.split(".")[0]]["callee"])
+                                       for o in org if o.split(".")[0] in maps[2]):
+                    guarded = True
+            R.inst("C07.s", "%s / %s with an argument-derived position is length-checked" % (
+                fn.short(), lib.split_path(b["callee"])[-1]), guarded,
+                   "%s indexes a payload with a position computed from its arguments (line %s) and no dominating branch "
+                   "compares that position with the payload's length: an out-of-range argument is a bounds-check panic inside "
+                   "the native frame (the host aborts) instead of an error value" % (fn.short(), b["line"]),
+                   fn.loc(b["line"]), sample=True)
+    R.floor("C07.s", "argument-derived index/slice sites in native primitives", n, 8)
